@@ -148,3 +148,94 @@ func multiRecordWrites(r *ev.Run, thorough bool) (cases, nontrivial int64) {
 	})
 	return
 }
+
+// grpcWriteRetries: NoiseGrpcConn.Write (through the real handshake entry
+// points) over a transport that accepts only part of a record and times out,
+// at every cut of the record on the wire. The caller does what a net.Conn
+// user does: after (n, timeout) it carries on with b[n:]; any other error
+// ends the connection for it. Oracle: what the peer reads is a prefix of b -
+// a retried write must not put bytes on the stream a second time - and when
+// no call reported any error, it is all of b.
+func grpcWriteRetries(r *ev.Run) (cases, nontrivial int64) {
+	type job struct {
+		n    int
+		cuts []int
+	}
+	var jobs []job
+	for _, n := range []int{1, 5, 40} {
+		w := 18 + n + 16
+		jobs = append(jobs, job{n, nil})
+		for c1 := 0; c1 < w; c1++ {
+			jobs = append(jobs, job{n, []int{c1}})
+		}
+		for c1 := 0; c1 < w; c1 += 5 {
+			for c2 := c1; c2 < w; c2 += 7 {
+				jobs = append(jobs, job{n, []int{c1, c2 - c1}})
+			}
+		}
+	}
+	parallel(len(jobs), func(i int) {
+		j := jobs[i]
+		atomic.AddInt64(&cases, 1)
+		p, err := newGrpcPair(hsCase{cMin: 2, cMax: 2, sMin: 2, sMax: 2, payload: 7})
+		if err != nil {
+			r.Violation("baseline-fails", err.Error(), "grpc write retry")
+			return
+		}
+		b := make([]byte, j.n)
+		for k := range b {
+			b[k] = byte('a' + k%26)
+		}
+		label := fmt.Sprintf("NoiseGrpcConn.Write of %d bytes, the transport accepts %v bytes before each timeout, the caller continues with b[n:]", j.n, j.cuts)
+		ctx := map[string]any{"write_len": j.n, "accepted_before_timeouts": j.cuts}
+		fail := func(key, what string) { r.Violation("grpc-write-retry/"+key, label+": "+what, ctx) }
+		p.d.i2r.mu.Lock()
+		p.d.i2r.partial = append([]int{}, j.cuts...)
+		p.d.i2r.mu.Unlock()
+		reported, timeouts, gaveUp := 0, 0, ""
+		for iter := 0; reported < len(b) && iter < 6; iter++ {
+			n, err := p.A.Write(b[reported:])
+			if n < 0 || n > len(b)-reported {
+				fail("count-out-of-range", fmt.Sprintf("Write returned n=%d for %d bytes", n, len(b)-reported))
+				return
+			}
+			reported += n
+			if err == nil {
+				continue
+			}
+			var te timeoutErr
+			if !errors.As(err, &te) {
+				// a hard error: the connection is over for this caller
+				gaveUp = err.Error()
+				break
+			}
+			timeouts++
+		}
+		p.closeWrite("a2b")
+		var got []byte
+		buf := make([]byte, 70000)
+		for {
+			n, err := p.B.Read(buf)
+			got = append(got, buf[:n]...)
+			if err != nil {
+				break
+			}
+		}
+		if !bytes.HasPrefix(b, got) {
+			fail("stream-bytes-added", fmt.Sprintf("the peer read %d bytes %q, which is not a prefix of the %d bytes written (%d reported as written, %d timeouts, caller gave up: %q)",
+				len(got), trunc16(got), len(b), reported, timeouts, gaveUp))
+			return
+		}
+		// (NoiseGrpcConn has no Flush of its own: after a timeout the rest
+		// of the pending record only goes out with a later call, so only a
+		// run without any error must deliver everything.)
+		if gaveUp == "" && timeouts == 0 && len(got) != len(b) {
+			fail("stream-bytes-lost", fmt.Sprintf("no call reported an error (%d bytes reported) but the peer read %d bytes", reported, len(got)))
+			return
+		}
+		if timeouts > 0 {
+			atomic.AddInt64(&nontrivial, 1)
+		}
+	})
+	return
+}
